@@ -109,6 +109,62 @@ PContains = _mk("str_contains", lambda x, pattern: PL.rx("search", pattern, x), 
 PMatches = _mk("str_matches", lambda x, pattern: PL.rx("match", pattern, x), {"pattern": T.Str}, kind="str")
 
 
+def _mk_compiled(name, mode):
+    """the same check given a COMPILED pattern (re.compile(text, flags)), which both back ends accept: the pandas twin hands the
+    compiled object to Series.str.match / contains, so its flags count; the polars twin must mean the same"""
+    import re
+
+    FLAGS = {"none": 0, "ignorecase": re.I, "multiline_dotall": re.M | re.S, "ignorecase_verbose": re.I | re.X}
+
+    class C(_PLeaf):
+        target = f"{PMOD}:{name}"
+        kind = "str"
+        split = {"flags": list(FLAGS)}
+
+        def make_args(self):
+            a = super().make_args()
+            a["pattern"] = PL.RxPattern(T.fresh_value(T.Str, "pattern_text"), FLAGS[self.fixed.get("flags", "none")] | re.UNICODE)
+            return a
+
+        def ensures(self, result, old, data, pattern):
+            return kleene_pointwise(result, cur().ghost["lf"], lambda x: PL.rx(mode, pattern, x))
+
+        def concretize(self, rec):
+            def thunk():
+                import warnings
+
+                import pandas as pd
+                import polars as pl
+                import pandera as pa
+                import pandera.polars as pp
+
+                warnings.simplefilter("ignore")
+                obs, bad = {}, False
+                chk = getattr(pa.Check, name)
+                for label, pat, vals in (("IGNORECASE", re.compile("abc", re.I), ["ABC", "xabc", "abd"]), ("DOTALL", re.compile("a.c", re.S), ["a\nc", "abc", "ac"]),
+                                         ("no flags", re.compile("a|b"), ["ab", "cb", "c"])):
+                    got = []
+                    for m, fr in ((pa, pd.DataFrame({"a": vals})), (pp, pl.DataFrame({"a": vals}))):
+                        try:
+                            m.DataFrameSchema({"a": m.Column(str, chk(pat))}).validate(fr, lazy=True)
+                            got.append([])
+                        except pa.errors.SchemaErrors as e:
+                            fc = e.failure_cases["failure_case"]
+                            got.append(sorted(fc.to_list() if m is pp else fc.tolist()))
+                    obs[label] = {"pandas rejects": got[0], "polars rejects": got[1]}
+                    bad = bad or got[0] != got[1]
+                return bad, obs
+
+            return thunk
+
+    C.__name__ = "PL_" + name + "_compiled"
+    return C
+
+
+PMatchesCompiled = _mk_compiled("str_matches", "match")
+PContainsCompiled = _mk_compiled("str_contains", "search")
+
+
 class PStrLength(_PLeaf):
     target = f"{PMOD}:str_length"
     kind = "str"
@@ -194,4 +250,4 @@ def _twin(name, argtypes):
 
 TWIN_CONTRACTS = [_twin(n, t) for n, t in TWINS.items()]
 
-CONTRACTS = [PEq, PNe, PGt, PGe, PLt, PLe, PInRange, PIsIn, PNotIn, PStartsWith, PEndsWith, PContains, PMatches, PStrLength] + TWIN_CONTRACTS
+CONTRACTS = [PEq, PNe, PGt, PGe, PLt, PLe, PInRange, PIsIn, PNotIn, PStartsWith, PEndsWith, PContains, PMatches, PMatchesCompiled, PContainsCompiled, PStrLength] + TWIN_CONTRACTS
